@@ -483,6 +483,34 @@ pub fn c11_enum_spec(rs: u64, unit: u64) -> RunSpec {
 
 /// Variants of a base history with a fault at every yield point that the base run reached.
 pub fn fault_variants(base: &RunSpec, yields: &[(u32, u8, u32)], cap_per_op: u32) -> Vec<RunSpec> {
+    fault_variants_idx(base, yields, cap_per_op).into_iter().map(|(_, s)| s).collect()
+}
+
+/// Two faults in one history ("a second panic in the same world later"): pairs of single-fault
+/// variants on different operations, merged. `pick` is a deterministic stream of choices.
+pub fn fault_pairs(base: &RunSpec, yields: &[(u32, u8, u32)], cap_per_op: u32, want: usize, mut pick: impl FnMut() -> u64) -> Vec<RunSpec> {
+    let singles = fault_variants_idx(base, yields, cap_per_op);
+    let mut out = Vec::new();
+    if singles.len() < 2 {
+        return out;
+    }
+    for _ in 0..want * 4 {
+        if out.len() >= want {
+            break;
+        }
+        let a = &singles[(pick() % singles.len() as u64) as usize];
+        let b = &singles[(pick() % singles.len() as u64) as usize];
+        if a.0 == b.0 {
+            continue;
+        }
+        let mut s = a.1.clone();
+        s.ops[b.0] = b.1.ops[b.0].clone();
+        out.push(s);
+    }
+    out
+}
+
+pub fn fault_variants_idx(base: &RunSpec, yields: &[(u32, u8, u32)], cap_per_op: u32) -> Vec<(usize, RunSpec)> {
     let mut out = Vec::new();
     for (opi, kind, count) in yields {
         let i = *opi as usize;
@@ -500,7 +528,7 @@ pub fn fault_variants(base: &RunSpec, yields: &[(u32, u8, u32)], cap_per_op: u32
                     }
                     if let Some(VisitAct { inner: Inner::OtherQuery { pk, .. }, .. }) = plan.get_mut(ok) {
                         *pk = j + 1;
-                        out.push(s);
+                        out.push((i, s));
                     }
                 }
             }
@@ -558,7 +586,7 @@ pub fn fault_variants(base: &RunSpec, yields: &[(u32, u8, u32)], cap_per_op: u32
                 _ => false,
             };
             if changed {
-                out.push(s);
+                out.push((i, s));
             }
         }
     }
@@ -690,6 +718,19 @@ pub fn run_unit(prop: &str, mode: &str, seed: u64, unit: u64, world_arg: Option<
                 for s in vars {
                     exec_one(prop, &s, unit, acc, opts);
                     acc.stats.inc("fault_points_enumerated");
+                    if acc.failure.is_some() {
+                        return;
+                    }
+                }
+                // two faults in one history, on different operations (sampled pairs)
+                let mut st = mix(mix(seed, unit), 0xD0B1E);
+                let pairs = fault_pairs(&base, &r.yields, 24, 8, || {
+                    st = mix(st, 0x9E37);
+                    st
+                });
+                for s in pairs {
+                    exec_one(prop, &s, unit, acc, opts);
+                    acc.stats.inc("fault_pairs_sampled");
                     if acc.failure.is_some() {
                         return;
                     }
